@@ -526,9 +526,16 @@ def rule_writer_settings(rep: Report, repo: Repo, rule: str) -> None:
         for c in ast.walk(m.tree):
             if isinstance(c, ast.Call) and call_name(c).split(".")[-1] in writer_classes:
                 n += 1
-                kw = next((k for k in c.keywords if k.arg == "settings"), None)
-                splat = any(k.arg is None for k in c.keywords)
-                fresh = kw is not None and isinstance(kw.value, ast.Call) and call_name(kw.value).split(".")[-1] == "Settings"
+                kw = next((k.value for k in c.keywords if k.arg == "settings"), None)
+                splat = any(k.arg is None for k in c.keywords) or any(isinstance(a, ast.Starred) for a in c.args)
+                if kw is None:
+                    # passed by position: where `settings` stands in the constructor (a *args parameter ends the positional ones)
+                    init = repo.find_method(call_name(c).split(".")[-1], "__init__")
+                    if init is not None and not init[1].args.vararg:
+                        names = [a.arg for a in init[1].args.args][1:]
+                        if "settings" in names and names.index("settings") < len(c.args):
+                            kw = c.args[names.index("settings")]
+                fresh = kw is not None and isinstance(kw, ast.Call) and call_name(kw).split(".")[-1] == "Settings"
                 rep.check((kw is not None and not fresh) or splat, rule, m.relpath, norm(c)[:70],
                           "the writer is constructed without the settings in effect: its headings use the default characters instead "
                           "of the configured rst.headers", witness="rst: {headers: ['=', '-']} in a -s file, directory input with -o")
